@@ -32,13 +32,14 @@ PROP = dict(
                     "deprecated/bucketteer/zz_verif_c05r_test.go": "harness/bucketteer/c05_robust_test.go"},
              env=_ROBUST_ENV, timeout=900, timeout_thorough=1500),
     ],
-    technique="Coq proof over a byte-level executable model of both bucketteer formats (reusing the proved eytzinger layout/search) + differential execution: the real Writer/Reader (mmap and plain ReaderAt) on generated multisets, property oracle on every answer, and the Coq model re-evaluated on the Go-written file bytes; GOMAXPROCS sweep of the writer process and fault-injecting ReaderAt wrappers (transient read errors, end of file reported with the last bytes)",
+    technique="Coq proof over a byte-level executable model of both bucketteer formats (reusing the proved eytzinger layout/search) + differential execution: the real Writer/Reader (mmap and plain ReaderAt) on generated multisets, property oracle on every answer, and the Coq model re-evaluated on the Go-written file bytes; GOMAXPROCS sweep of the writer process and fault-injecting ReaderAt wrappers (transient read errors, end of file reported with the last bytes), concurrent lookups on one Reader through a yielding / blocking ReaderAt (before and after a transient read error)",
     level_text=_RULE + " Tie: on every run the real Go writer and readers (mmap, *os.File, bytes.Reader) are exercised on multisets with duplicates, "
-               "bucket populations 0,1,2,3,2^k-1,2^k,2^k+1, empty and edge prefixes and up to ~20 000 (quick) / ~200 000 (thorough) signatures, "
+               "bucket populations 0,1,2,3,2^k-1,2^k,2^k+1, empty and edge prefixes and up to ~20 000 (quick) / ~200 000 (thorough) signatures, crowded prefixes of 16 000, 16 001, ~16 040 and more than 32 000 (thorough: 64 000) signatures "
+               "(at and beyond the 16 000 hashes of room the current writer starts every bucket with) whose neighbour prefixes p-2..p+2 (little-endian uint16) and byte-order neighbours are populated before, while and after the crowded one, "
                "with the property evaluated on every answer; the same oracle on multisets over the first, last (ffff, feff, ...), byte-swapped and n-way-seam prefixes "
                "(2..9 signatures each plus duplicates, per-bucket put order never an eytzinger layout) sealed in child processes under GOMAXPROCS = default, 1, 2, 3, 5, 6, 7, 12, 16 "
                "(thorough: 19 values up to 96); readers over fault-injecting io.ReaderAt wrappers (every ReadAt of the trace of NewReader + lookups fails once: the failed call may err "
-               "but never answers (false, nil) for an added signature, and after a retry every added signature is present on the same Reader); small runs are handed to coqc, which checks the model writer's Has, the MODEL reader on the "
+               "but never answers (false, nil) for an added signature, and after a retry every added signature is present on the same Reader; 8..16 goroutines asking one Reader at the same time for all added signatures and absent probes, reading process under GOMAXPROCS 1, 16, 3 and default, the ReaderAt yielding / blocking on a channel handshake / returning at once after it filled the buffer, on a Reader that never met a read error and after every fault injection: every answer equals the sequential one); small runs are handed to coqc, which checks the model writer's Has, the MODEL reader on the "
                "GO-written bytes (cross-read) and the model reader on the model-written file against the Go answers; cespare/xxhash is checked against XXH.xxh64.",
     level_note="Forced hypotheses, stated in the theorems: fewer than 2^29 distinct hashes per prefix (the reader computes the bucket length as uint32(numHashes*8)); "
                "legacy format only: serialized metadata shorter than 2^31 bytes (borsh string lengths / uint32 header size). Trusted: Coq kernel; the hand-written model "
